@@ -100,7 +100,7 @@ def run_case(ctx, case, rec, d):
     phys_names = ['p%d_%s' % (i, 'kcxaqfzb'[i]) for i in range(n)]
     names = [phys_names[i] for i in perm]                 # package order
     k = fc.law_k('power', [fc.BAND_WAV[b] for b in BANDS])
-    avlo, avhi = 0.0, 10.0
+    avlo, avhi = (0.0, 10.0) if case['variant'] != 2 else (2.5, 2.5)        # one load variant runs with A_V pinned to a non-zero value
     rec.cls('mode-' + mode)
     if n == 1:
         rec.cls('n_models==1')
@@ -170,7 +170,9 @@ def run_case(ctx, case, rec, d):
                     prob = 'live rows differ from the package without the dead model'
             if prob:
                 rec.violation('rank|2d|dead-model', {'source': si}, {'problem': prob, 'flags': list(fv), 'ranking': bn, 'chi2': bch})
+    from mc.canon import canon as _canon
     for fitter, rr in fitters:
+        handed_out = []
         f32 = fc.observed_f32(fitter)
         if f32:
             rec.cls('float32-path')
@@ -189,6 +191,13 @@ def run_case(ctx, case, rec, d):
                 fl[2] = base[2] * 50.0
                 fl[3] = base[3] * 0.02
             info = fitter.fit(fc.make_source(fv, fl, er))
+            # a result stays what it was when later sources are fitted with the same fitter (rows must keep describing one model)
+            for old_info, old_c, old_si in handed_out:
+                if _canon([np.asarray(old_info.model_name), np.asarray(old_info.av), np.asarray(old_info.sc), np.asarray(old_info.chi2), np.asarray(old_info.model_id), np.asarray(old_info.model_fluxes)]) != old_c:
+                    rec.violation('rank|%s|earlier-result-changed' % mode, {'source': si, 'remove_resolved': rr}, {'problem': 'the result for source %d changed when source %d was fitted' % (old_si, si), 'n_models': n})
+                    handed_out = []
+                    break
+            handed_out.append((info, _canon([np.asarray(info.model_name), np.asarray(info.av), np.asarray(info.sc), np.asarray(info.chi2), np.asarray(info.model_id), np.asarray(info.model_fluxes)]), si))
             rec.trans()
             rec.ev(n)
             rec.trace()
